@@ -278,6 +278,20 @@ theorem slotFill_inv (w : World) (fl : Nat → Nat) (si i o : Nat) (s : Server) 
   · have h1 : ¬ o = o' := fun e => ho e.symm
     simp [one, ho, h1] at this ⊢; omega
 
+/-- the same for any update function that writes exactly that slot of this server -/
+theorem slotFill_inv' (w : World) (fl : Nat → Nat) (si i o : Nat) (s : Server) (sl : Slot) (f : Server → Server) (h : Inv w fl)
+    (hs : getSrv w si = some s) (hi : i < s.slots.length) (hempty : s.slots[i].rq = none) (hsl : sl.rq = some o)
+    (hf : (f s).slots = s.slots.set i sl) (hfl : 1 ≤ fl o) :
+    Inv (updSrv w si f) (fun x => fl x - one o x) := by
+  apply inv_move w _ fl _ h (fun o' => getRq_updSrv _ _ _ _)
+  intro o'
+  have := holders_slotSet' w si i sl s f o' hs hi hf
+  rw [hempty, hsl] at this
+  by_cases ho : o' = o
+  · subst ho; simp [one] at this ⊢; omega
+  · have h1 : ¬ o = o' := fun e => ho e.symm
+    simp [one, ho, h1] at this ⊢; omega
+
 /-- an outstanding slot is cleared; the running code now holds that reference -/
 theorem slotClear_inv (w : World) (fl : Nat → Nat) (si i o : Nat) (s : Server) (sl : Slot) (h : Inv w fl)
     (hs : getSrv w si = some s) (hi : i < s.slots.length) (hfull : s.slots[i].rq = some o) (hsl : sl.rq = none) :
@@ -636,5 +650,275 @@ theorem sendreply_inv (w : World) (fl : Nat → Nat) (o ci : Nat) (r : Rq) (c : 
   | some b =>
     simp only [hb] at h1 ⊢
     exact qPush_inv _ fl ci o c h1 (by unfold getCli setRq; exact hc) hfl
+
+/-- table sizes: 256 outstanding slots per server, 256 duplicate-cache entries per client -/
+structure WF (w : World) : Prop where
+  slots : ∀ si s, getSrv w si = some s → s.slots.length = 256
+  cache : ∀ ci c, getCli w ci = some c → c.cache.length = 256
+  nextid : ∀ si s, getSrv w si = some s → s.nextid ≤ 256
+
+theorem WF_heap (w w' : World) (hs : w'.servers = w.servers) (hc : w'.clients = w.clients) (h : WF w) : WF w' :=
+  ⟨fun si s hh => h.slots si s (by unfold getSrv at *; rw [← hs]; exact hh),
+   fun ci c hh => h.cache ci c (by unfold getCli at *; rw [← hc]; exact hh),
+   fun si s hh => h.nextid si s (by unfold getSrv at *; rw [← hs]; exact hh)⟩
+
+theorem WF_setRq (w : World) (o : Nat) (r : Rq) (h : WF w) : WF (setRq w o r) := WF_heap w _ rfl rfl h
+theorem WF_updRq (w : World) (o : Nat) (f : Rq → Rq) (h : WF w) : WF (updRq w o f) := WF_heap w _ rfl rfl h
+
+theorem WF_freerq (w : World) (o : Nat) (h : WF w) : WF (freerq w o) := by
+  unfold freerq
+  cases getRq w o with
+  | none => exact h
+  | some r => simp only; split <;> exact WF_heap w _ rfl rfl h
+
+theorem getSrv_updSrv_other (w : World) (si sj : Nat) (f : Server → Server) (hne : sj ≠ si) :
+    getSrv (updSrv w si f) sj = getSrv w sj := by
+  unfold getSrv updSrv
+  cases w.servers[si]? with
+  | none => rfl
+  | some s =>
+    have : ¬ si = sj := fun h => hne h.symm
+    simp [setSrv, List.getElem?_set, this]
+
+theorem WF_updSrv (w : World) (si : Nat) (f : Server → Server) (hf : ∀ s, (f s).slots.length = s.slots.length)
+    (hn : ∀ s, s.nextid ≤ 256 → (f s).nextid ≤ 256) (h : WF w) :
+    WF (updSrv w si f) := by
+  have key : ∀ sj s', getSrv (updSrv w si f) sj = some s' → ∃ s, getSrv w sj = some s ∧ s'.slots.length = s.slots.length ∧ (s.nextid ≤ 256 → s'.nextid ≤ 256) := by
+    intro sj s' hh
+    by_cases hj : sj = si
+    · subst hj
+      cases hs : getSrv w sj with
+      | none =>
+        have : updSrv w sj f = w := by unfold updSrv; unfold getSrv at hs; rw [hs]
+        rw [this, hs] at hh; cases hh
+      | some s =>
+        rw [getSrv_updSrv_same w sj f s hs] at hh
+        cases hh
+        exact ⟨s, rfl, hf s, hn s⟩
+    · rw [getSrv_updSrv_other w si sj f hj] at hh; exact ⟨s', hh, rfl, id⟩
+  refine ⟨?_, fun ci c hh => h.cache ci c (by rw [getCli_updSrv] at hh; exact hh), ?_⟩
+  · intro sj s' hh
+    obtain ⟨s, hs, hl, _⟩ := key sj s' hh
+    rw [hl]; exact h.slots sj s hs
+  · intro sj s' hh
+    obtain ⟨s, hs, _, hnx⟩ := key sj s' hh
+    exact hnx (h.nextid sj s hs)
+
+/-- `rmclientrq(rq, id)`: the duplicate-cache entry `id` of the request's client is emptied and its reference dropped -/
+theorem rmclientrq_inv (w : World) (fl : Nat → Nat) (o id : Nat) (h : Inv w fl) : Inv (rmclientrq w o id) fl := by
+  unfold rmclientrq
+  cases hr : getRq w o with
+  | none => exact h
+  | some r =>
+    simp only
+    cases hf : r.frm with
+    | none => exact h
+    | some ci =>
+      simp only
+      cases hc : getCli w ci with
+      | none => exact h
+      | some c =>
+        simp only
+        cases he : c.cache.getD id none with
+        | none => exact h
+        | some o' =>
+          simp only
+          have hi : id < c.cache.length := by
+            rcases Nat.lt_or_ge id c.cache.length with hlt | hge
+            · exact hlt
+            · rw [List.getD_eq_getElem?_getD, List.getElem?_eq_none hge] at he; cases he
+          have hfull : c.cache[id] = some o' := by
+            rw [List.getD_eq_getElem?_getD, List.getElem?_eq_getElem hi] at he; exact he
+          have h1 := cacheClear_inv w fl ci id o' c h hc hi hfull
+          have h2 := updRq_inv _ _ o (fun r => { r with frm := none }) (fun _ => rfl) h1
+          have h3 := freerq_inv _ _ o' h2 (by simp [one])
+          exact inv_congr_fl h3 (fun x => by simp only [one]; split <;> omega)
+
+/-- giving up on a request inside `sendrq` (no server, no free identifier): forgotten and the caller's reference dropped -/
+theorem sendrqFail_inv (w : World) (fl : Nat → Nat) (o id : Nat) (h : Inv w fl) (hfl : 1 ≤ fl o) :
+    Inv (sendrqFail w o id) (fun x => fl x - one o x) := by
+  unfold sendrqFail
+  have h1 : Inv (match (getRq w o).bind (·.frm) with | some _ => rmclientrq w o id | none => w) fl := by
+    cases (getRq w o).bind (·.frm) with
+    | none => exact h
+    | some _ => exact rmclientrq_inv w fl o id h
+  exact freerq_inv _ fl o h1 hfl
+
+/-- one attempt to place a request in slot `id`: on success the caller's reference moves into the slot, otherwise
+    nothing moves -/
+theorem internalSendrq_inv (w : World) (fl : Nat → Nat) (si id o : Nat) (h : Inv w fl) (wf : WF w) (hid : id < 256) (hfl : 1 ≤ fl o) :
+    (if (internalSendrq w si id o).2 then Inv (internalSendrq w si id o).1 (fun x => fl x - one o x)
+     else Inv (internalSendrq w si id o).1 fl) := by
+  unfold internalSendrq
+  cases hs : getSrv w si with
+  | none => simp only; exact h
+  | some s =>
+    cases hr : getRq w o with
+    | none => simp only; exact h
+    | some r =>
+      simp only
+      by_cases hocc : (slotOf s id).rq.isSome = true
+      · simp only [hocc, if_true]; exact h
+      · simp only [hocc]
+        cases hm : r.msg with
+        | none => simp only; exact h
+        | some m =>
+          simp only
+          cases hser : Radmsg.serialize w.H { m with id := UInt8.ofNat id } (some s.conf.secret) with
+          | ok b a' =>
+            simp only [if_true]
+            have hi : id < s.slots.length := by rw [wf.slots si s hs]; exact hid
+            have h1 := setRq_inv w fl o r { r with newid := id, msg := some { { m with id := UInt8.ofNat id } with auth := a' }, buf := some b } hr rfl h
+            have hempty : s.slots[id].rq = none := by
+              have : (slotOf s id).rq = none := by
+                cases hx : (slotOf s id).rq with
+                | none => rfl
+                | some x => simp [hx] at hocc
+              unfold slotOf at this
+              rw [List.getD_eq_getElem?_getD, List.getElem?_eq_getElem hi] at this; exact this
+            exact slotFill_inv' _ fl si id o s { (slotOf s id) with rq := some o } _ h1 (by unfold getSrv setRq; exact hs) hi hempty rfl rfl hfl
+          | fail => simp only; exact setRq_inv w fl o r _ hr rfl h
+          | fault => simp only; exact setRq_inv w fl o r _ hr rfl h
+
+theorem WF_internalSendrq (w : World) (si id o : Nat) (wf : WF w) : WF (internalSendrq w si id o).1 := by
+  unfold internalSendrq
+  cases getSrv w si with
+  | none => exact wf
+  | some s =>
+    cases getRq w o with
+    | none => exact wf
+    | some r =>
+      simp only
+      split
+      · exact wf
+      · cases r.msg with
+        | none => exact wf
+        | some m =>
+          simp only
+          cases Radmsg.serialize w.H { m with id := UInt8.ofNat id } (some s.conf.secret) with
+          | ok b a' => exact WF_updSrv _ si _ (fun s => by simp) (fun s hs => hs) (WF_setRq w o _ wf)
+          | fail => exact WF_setRq w o _ wf
+          | fault => exact WF_setRq w o _ wf
+
+/-- the scan over identifiers: when it finds a free one the caller's reference has moved into that slot,
+    otherwise nothing moved -/
+theorem scanSlots_inv (fuel : Nat) (w : World) (fl : Nat → Nat) (si o i upto : Nat) (h : Inv w fl) (wf : WF w)
+    (hup : upto ≤ 256) (hfl : 1 ≤ fl o) :
+    WF (scanSlots w si o fuel i upto).1 ∧
+    (match (scanSlots w si o fuel i upto).2 with
+     | some _ => Inv (scanSlots w si o fuel i upto).1 (fun x => fl x - one o x)
+     | none => Inv (scanSlots w si o fuel i upto).1 fl) := by
+  induction fuel generalizing w i with
+  | zero => exact ⟨wf, h⟩
+  | succ fuel ih =>
+    unfold scanSlots
+    by_cases hge : i ≥ upto
+    · simp only [hge, if_true]; exact ⟨wf, h⟩
+    · simp only [hge, if_false]
+      have hstep := internalSendrq_inv w fl si i o h wf (by omega) hfl
+      have hwf := WF_internalSendrq w si i o wf
+      cases hok : (internalSendrq w si i o).2 with
+      | true =>
+        simp only [hok, if_true] at hstep ⊢
+        exact ⟨hwf, hstep⟩
+      | false =>
+        simp only [hok] at hstep ⊢
+        exact ih _ (i + 1) hstep hwf
+
+/-- what `sendrqPlace` makes of a scan result -/
+def scanDone (si : Nat) (s : Server) (r : World × Option Nat) : World × Bool :=
+  match r with
+  | (w2, some i) => (updSrv w2 si fun s' => { s' with nextid := if i ≥ startId s then i + 1 else s'.nextid }, true)
+  | (w2, none) => (w2, false)
+
+/-- the part of `sendrqPlace` after the first scan, as a function of that scan's result -/
+def placeTail (si o : Nat) (s : Server) (cur : Nat) (r1 : World × Option Nat) : World × Bool :=
+  match r1 with
+  | (w1, some i) => (updSrv w1 si fun s' => { s' with nextid := if i ≥ startId s then i + 1 else s'.nextid }, true)
+  | (w1, none) => scanDone si s (scanSlots w1 si o 256 (startId s) cur)
+
+theorem sendrqPlace_eq (w : World) (si o : Nat) (s : Server) (isProbe : Bool) :
+    sendrqPlace w si o s isProbe =
+      if startId s ≠ 0 ∧ isProbe then internalSendrq w si 0 o
+      else placeTail si o s (if s.nextid = 0 then startId s else s.nextid)
+        (scanSlots (updSrv w si fun s' => { s' with nextid := if s.nextid = 0 then startId s else s.nextid }) si o 256
+          (if s.nextid = 0 then startId s else s.nextid) 256) := by
+  unfold sendrqPlace placeTail scanDone
+  rfl
+
+theorem scanDone_inv (fl : Nat → Nat) (si o : Nat) (s : Server) (r : World × Option Nat)
+    (h1 : WF r.1 ∧ (match r.2 with | some _ => Inv r.1 (fun x => fl x - one o x) | none => Inv r.1 fl)) :
+    (if (scanDone si s r).2 then Inv (scanDone si s r).1 (fun x => fl x - one o x) else Inv (scanDone si s r).1 fl) := by
+  obtain ⟨w2, f2⟩ := r
+  cases f2 with
+  | some i =>
+    simp only [scanDone, if_true] at h1 ⊢
+    exact updSrv_noslots_inv w2 _ si _ (fun _ => rfl) h1.2
+  | none =>
+    simp only [scanDone] at h1 ⊢
+    exact h1.2
+
+theorem placeTail_inv (fl : Nat → Nat) (si o : Nat) (s : Server) (cur : Nat) (r1 : World × Option Nat) (hcur : cur ≤ 256)
+    (hfl : 1 ≤ fl o)
+    (h1 : WF r1.1 ∧ (match r1.2 with | some _ => Inv r1.1 (fun x => fl x - one o x) | none => Inv r1.1 fl)) :
+    (if (placeTail si o s cur r1).2 then Inv (placeTail si o s cur r1).1 (fun x => fl x - one o x)
+     else Inv (placeTail si o s cur r1).1 fl) := by
+  obtain ⟨w1, f1⟩ := r1
+  cases f1 with
+  | some i =>
+    simp only [placeTail, if_true] at h1 ⊢
+    exact updSrv_noslots_inv w1 _ si _ (fun _ => rfl) h1.2
+  | none =>
+    simp only at h1
+    simp only [placeTail]
+    exact scanDone_inv fl si o s _ (scanSlots_inv 256 w1 fl si o (startId s) cur h1.2 h1.1 hcur hfl)
+
+theorem sendrqPlace_inv (w : World) (fl : Nat → Nat) (si o : Nat) (s : Server) (isProbe : Bool) (h : Inv w fl) (wf : WF w)
+    (hnext : s.nextid ≤ 256) (hfl : 1 ≤ fl o) :
+    (if (sendrqPlace w si o s isProbe).2 then Inv (sendrqPlace w si o s isProbe).1 (fun x => fl x - one o x)
+     else Inv (sendrqPlace w si o s isProbe).1 fl) := by
+  rw [sendrqPlace_eq]
+  by_cases hp : startId s ≠ 0 ∧ isProbe = true
+  · rw [if_pos hp]
+    exact internalSendrq_inv w fl si 0 o h wf (by omega) hfl
+  · rw [if_neg hp]
+    have hcur : (if s.nextid = 0 then startId s else s.nextid) ≤ 256 := by
+      split
+      · unfold startId; split <;> omega
+      · exact hnext
+    have h0 : Inv (updSrv w si fun s' => { s' with nextid := if s.nextid = 0 then startId s else s.nextid }) fl :=
+      updSrv_noslots_inv w fl si _ (fun _ => rfl) h
+    have wf0 : WF (updSrv w si fun s' => { s' with nextid := if s.nextid = 0 then startId s else s.nextid }) :=
+      WF_updSrv w si _ (fun _ => rfl) (fun _ _ => hcur) wf
+    have s1 := scanSlots_inv 256 _ fl si o (if s.nextid = 0 then startId s else s.nextid) 256 h0 wf0 (by omega) hfl
+    exact placeTail_inv fl si o s _ _ hcur hfl s1
+
+/-- **queueing a request for a server** (`sendrq`): the caller's reference ends up in exactly one outstanding slot, or —
+    no server, no free identifier, packet cannot be built — the request is forgotten and the reference dropped -/
+theorem sendrq_inv (w : World) (fl : Nat → Nat) (o : Nat) (h : Inv w fl) (wf : WF w) (hfl : 1 ≤ fl o) :
+    Inv (sendrq w o) (fun x => fl x - one o x) := by
+  unfold sendrq
+  cases hr : getRq w o with
+  | none => have := (h.dead o hr).2; omega
+  | some r =>
+    simp only
+    cases hto : r.to with
+    | none => exact sendrqFail_inv w fl o _ h hfl
+    | some si =>
+      simp only
+      cases hs : getSrv w si with
+      | none => exact sendrqFail_inv w fl o _ h hfl
+      | some s =>
+        simp only
+        have hp := sendrqPlace_inv w fl si o s (match r.msg with | some m => decide (m.code = 12) | none => false) h wf (wf.nextid si s hs) hfl
+        generalize sendrqPlace w si o s (match r.msg with | some m => decide (m.code = 12) | none => false) = res at hp
+        obtain ⟨w', ok⟩ := res
+        cases ok with
+        | true =>
+          simp only [if_true] at hp ⊢
+          exact updSrv_noslots_inv w' _ si _ (fun _ => rfl) hp
+        | false =>
+          simp only at hp ⊢
+          exact sendrqFail_inv w' fl o _ hp hfl
 
 end Rsp.Props.C17
